@@ -78,7 +78,40 @@ def rmws(f, field=None, glob=None, pred=None):
     return [e.inst for e in accesses(f, field, ("rmw", "cmpxchg", "xchg"), glob, pred)]
 
 
+LIBC_LIKE = ("pthread_", "llvm.", "__", "sig", "mmap", "munmap", "mremap", "malloc", "calloc", "free", "poll", "abort", "syscall", "sched_", "memset", "memcpy")
+
+
+def scope_names(mod):
+    """every function name known to the module: defined/declared functions and the source functions
+    whose bodies were inlined somewhere (from the inlinedAt chains)"""
+    sn = mod.__dict__.get("_scope_names")
+    if sn is None:
+        sn = set(mod.functions.keys())
+        for g in mod.defined():
+            sn.add(g.srcname)
+            for i in g.all_insts():
+                if i.loc:
+                    for l in i.loc:
+                        sn.add(l[0])
+        mod.__dict__["_scope_names"] = sn
+    return sn
+
+
+def _anchor_exists(mod, name):
+    if name.startswith(LIBC_LIKE):
+        return True
+    return name in scope_names(mod)
+
+
 def calls(f, name):
+    out = [i for i in f.all_insts() if i.op == "call" and i.callee == name]
+    if not out and not _anchor_exists(f.mod, name):
+        raise Broken("anchor function %s does not exist in %s any more (renamed or removed): rule cannot be decided" % (name, f.mod.name.split("/")[-1]))
+    return out
+
+
+def calls_opt(f, name):
+    """calls whose absence is itself the finding (no anchor-existence requirement)"""
     return [i for i in f.all_insts() if i.op == "call" and i.callee == name]
 
 
@@ -108,6 +141,15 @@ def inline_ctx(i, fname):
 
 
 def from_fn(i, fname):
+    if fname in i.scope_chain:
+        return True
+    if not _anchor_exists(i.fn.mod, fname):
+        raise Broken("anchor function %s does not exist in %s any more (renamed or removed): rule cannot be decided" % (fname, i.fn.mod.name.split("/")[-1]))
+    return False
+
+
+def from_fn_opt(i, fname):
+    """like from_fn, for helpers that legitimately do not exist in some flavors"""
     return fname in i.scope_chain
 
 
